@@ -403,8 +403,128 @@ def run_cli_defaults(case, agg):
         agg.ok(h8("c06d", case), "ok:cli-defaults", sample=case if case["kid"] == "0X100" and case["sub"] == "enc" else None)
 
 
+# -- key names, and inputs that live where an output will be written ------------------------------------------
+
+def keyname_cases(tier):
+    return [{"key": k, "via": v, "L": L} for k in ("aes.v2", "solo.aes", "aes.2024-06.rel") for v in ("object", "main", "cli") for L in (0, 33)]
+
+
+def run_keyname(case, agg):
+    """AES key names with dots (a sibling key with the truncated name present or not): the key in <key-name>.bin encrypts"""
+    from suit_generator import cmd_encrypt
+    from suit_generator.suit_encrypt_script_base import SuitDigestAlgorithms, SuitKWAlgorithms
+    es, ks = escripts()
+    kd = vkeys.key_dir()
+    pt = plaintext(case["L"], 4)
+    label = f"encrypt-and-generate with key name {case['key']!r} via {case['via']} ({case['L']} bytes)"
+    with fresh_dir("c06k") as d:
+        od = os.path.join(d, "out")
+        os.makedirs(od)
+        fw = os.path.join(d, "fw.bin")
+        open(fw, "wb").write(pt)
+        try:
+            if case["via"] == "cli":
+                rc, so, se = impl.cli(["encrypt", "encrypt-and-generate", "--firmware", fw, "--key-name", case["key"], "--key-id", "9", "--context", kd,
+                                       "--output-dir", od, "--kms-script", ks, "--encrypt-script", es], d)
+                if rc != 0:
+                    raise RuntimeError(f"cli rc={rc}: {se[-300:]}")
+            elif case["via"] == "main":
+                cmd_encrypt.main(encrypt_subcommand="encrypt-and-generate", firmware=fw, key_name=case["key"], key_id=9, context=kd,
+                                 output_dir=od, hash_alg="sha-256", kw_alg="direct", kms_script=ks, encrypt_script=es)
+            else:
+                ep, tag, info, dg, n = _encryptor().encrypt_and_generate(pt, case["key"], 9, kd, SuitDigestAlgorithms("sha-256"), SuitKWAlgorithms("direct"), ks)
+                open(os.path.join(od, "plain_text_digest.bin"), "wb").write(dg)
+                open(os.path.join(od, "plain_text_size.txt"), "w").write(str(n))
+                open(os.path.join(od, "suit_encryption_info.bin"), "wb").write(info)
+                open(os.path.join(od, "encrypted_content.bin"), "wb").write(tag + ep)
+        except Exception as e:
+            agg.viol(f"C06:key-name/encrypt-failed/{type(e).__name__}", f"{label}: {type(e).__name__}: {str(e)[-300:]}")
+            return
+        r = check_artifacts(od, vkeys.aes_key(vkeys.identity(case["key"])), pt, 9, "sha-256")
+        problems = r[0] if isinstance(r, tuple) else r
+    if problems:
+        agg.viol(f"C06:key-name/{problems[0][0]}", f"{label}: " + "; ".join(p[1] for p in problems[:2]))
+    else:
+        agg.ok(h8("c06k", case), f"ok:key-name:{case['via']}", sample=case if case["via"] == "cli" and case["L"] else None)
+
+
+INPLACE = [("enc", "encrypted_content.bin"), ("enc", "plain_text_digest.bin"), ("enc", "plain_text_size.txt"), ("enc", "suit_encryption_info.bin"),
+           ("gi-blob", "encrypted_content.bin"), ("gi-blob", "suit_encryption_info.bin"), ("gi-key", "suit_encryption_info.bin"),
+           ("gi-key", "encrypted_content.bin"), ("gi-both", None)]
+
+
+def inplace_cases(tier):
+    return [{"sub": s, "at": a, "via": v, "L": L} for (s, a) in INPLACE for v in ("main", "cli") for L in (40, 3000)]
+
+
+def run_inplace(case, agg):
+    """an input file that lives at one of the output paths (re-encrypting an artifact of an earlier run in its own
+    directory, or the blob / wrapped key stored under the artifact's name): the artifacts describe the supplied input"""
+    from suit_generator import cmd_encrypt
+    es, ks = escripts()
+    kd = vkeys.key_dir()
+    sub, at, L = case["sub"], case["at"], case["L"]
+    label = f"{sub} with its input stored as <output-dir>/{at or 'both artifact names'} ({L} bytes) via {case['via']}"
+    with fresh_dir("c06i") as d:
+        od = os.path.join(d, "out")
+        os.makedirs(od)
+        try:
+            if sub == "enc":
+                pt = plaintext(L, 6)
+                fw = os.path.join(od, at)
+                open(fw, "wb").write(pt)
+                if case["via"] == "cli":
+                    rc, so, se = impl.cli(["encrypt", "encrypt-and-generate", "--firmware", fw, "--key-name", "aes", "--key-id", "9", "--context", kd,
+                                           "--output-dir", od, "--kms-script", ks, "--encrypt-script", es], d)
+                    if rc != 0:
+                        raise RuntimeError(f"cli rc={rc}: {se[-300:]}")
+                else:
+                    cmd_encrypt.main(encrypt_subcommand="encrypt-and-generate", firmware=fw, key_name="aes", key_id=9, context=kd,
+                                     output_dir=od, hash_alg="sha-256", kw_alg="direct", kms_script=ks, encrypt_script=es)
+                r = check_artifacts(od, vkeys.aes_key("aes"), pt, 9, "sha-256")
+                problems = r[0] if isinstance(r, tuple) else r
+            else:
+                blob = bytes((i * 13 + 5) % 256 for i in range(28 + L))
+                cek = b"W" * 40
+                fb, fk = os.path.join(d, "b.bin"), os.path.join(d, "k.bin")
+                if sub == "gi-blob":
+                    fb = os.path.join(od, at)
+                elif sub == "gi-key":
+                    fk = os.path.join(od, at)
+                else:
+                    fb, fk = os.path.join(od, "encrypted_content.bin"), os.path.join(od, "suit_encryption_info.bin")
+                open(fb, "wb").write(blob)
+                open(fk, "wb").write(cek)
+                if case["via"] == "cli":
+                    rc, so, se = impl.cli(["encrypt", "generate-info", "--encrypted-firmware", fb, "--encrypted-key", fk, "--key-id", "9",
+                                           "--output-dir", od, "--encrypt-script", es], d)
+                    if rc != 0:
+                        raise RuntimeError(f"cli rc={rc}: {se[-300:]}")
+                else:
+                    cmd_encrypt.main(encrypt_subcommand="generate-info", encrypted_firmware=fb, encrypted_key=fk, key_id=9, kw_alg="direct",
+                                     output_dir=od, encrypt_script=es)
+                r = check_artifacts(od, None, None, 9, None, kw="direct", cek=cek)
+                problems, info = r if isinstance(r, tuple) else (r, None)
+                if not problems:
+                    pi, _ = parse_info(info)
+                    if pi["iv"] != blob[:12]:
+                        problems.append(("generate-info-iv", f"published IV {pi['iv']!r} is not the first 12 bytes of the supplied blob"))
+                    elif open(os.path.join(od, "encrypted_content.bin"), "rb").read() != blob[12:]:
+                        problems.append(("generate-info-content", "encrypted_content.bin is not tag||ciphertext of the supplied blob"))
+        except Exception as e:
+            agg.viol(f"C06:input-at-output-path/failed/{type(e).__name__}", f"{label}: {type(e).__name__}: {str(e)[-300:]}")
+            return
+    if problems:
+        agg.viol(f"C06:input-at-output-path/{problems[0][0]}", f"{label}: " + "; ".join(p[1] for p in problems[:2]))
+    else:
+        agg.ok(h8("c06i", case), f"ok:in-place:{sub}", sample=case if case["via"] == "cli" and L == 40 and sub == "gi-both" else None)
+
+
 def plan(tier):
     return [
+        CaseStage("key-names", lambda: keyname_cases(tier), run_keyname, chunk=1, rule="AES key names with dots (sibling with the truncated name present / absent) x library / main / CLI"),
+        CaseStage("input-at-output-path", lambda: inplace_cases(tier), run_inplace, chunk=1,
+                  rule="every input of both sub-commands stored under every artifact name of the output directory x main / CLI"),
         CaseStage("encrypt-and-generate", lambda: enc_cases(tier), run_enc, disjoint=True, rule="length x key id x digest alg x entry path"),
         CaseStage("generate-info", lambda: gi_cases(tier), run_gi, disjoint=True, rule="blob length x key id x kw alg x entry path"),
         CaseStage("cli-defaults", lambda: cli_default_cases(tier), run_cli_defaults, rule="real CLI with optional arguments omitted, key id syntax, context as path / JSON"),
